@@ -7,5 +7,10 @@
 #![allow(clippy::expect_used)]
 #![allow(missing_docs)]
 
+pub mod c01;
 pub mod c10;
 pub use c10::{range_diff, HookRangeDiff};
+pub mod c35;
+pub mod c28;
+pub mod c11;
+pub mod c12;
